@@ -7,7 +7,7 @@ import (
 	"github.com/google/go-tpm/legacy/tpm2"
 )
 
-var hasherPools = [0xffff]sync.Pool{}
+var hasherPools = [0x10000]sync.Pool{}
 
 type hasher struct {
 	hash.Hash
